@@ -99,6 +99,38 @@ func evalLogStep(eng *logqlengine.Engine, query string, startNS, endNS int64, st
 	return res
 }
 
+// evalLogDir: as evalLogOn with the direction of the request.
+func evalLogDir(eng *logqlengine.Engine, query string, startNS, endNS int64, limit int, dir string) (res logResult) {
+	defer func() {
+		if p := recover(); p != nil {
+			res.Panic = fmt.Sprint(p)
+		}
+	}()
+	data, err := eng.Eval(context.Background(), query, logqlengine.EvalParams{
+		Start: otelstorage.Timestamp(startNS), End: otelstorage.Timestamp(endNS), Step: time.Second, Limit: limit, Direction: dir,
+	})
+	if err != nil {
+		res.Err = err.Error()
+		return res
+	}
+	if data.Type != lokiapi.StreamsResultQueryResponseData {
+		res.Err = "not a streams result: " + string(data.Type)
+		return res
+	}
+	res.Streams = len(data.StreamsResult.Result)
+	for si, st := range data.StreamsResult.Result {
+		labels := refmodel.Labels{}
+		for k, v := range st.Stream.Value {
+			labels[k] = v
+		}
+		res.StreamKeys = append(res.StreamKeys, labels.Key())
+		for _, e := range st.Values {
+			res.Entries = append(res.Entries, outEntry{TS: int64(e.T), Line: e.V, Labels: labels, Stream: si})
+		}
+	}
+	return res
+}
+
 func newEngine(q logqlengine.Querier) *logqlengine.Engine {
 	return logqlengine.NewEngine(q, logqlengine.Options{TracerProvider: noop.NewTracerProvider()})
 }
